@@ -1,6 +1,7 @@
 package main
 
 import (
+	"regexp"
 	"fmt"
 	"go/ast"
 	"go/types"
@@ -146,6 +147,16 @@ func c17ValidateBounds(c *Ctx) {
 		req("refresh:allowance-min", refresh, R+".Refresh.Allowance", opLT, "call rhp/v4.MinRenterAllowance("+R+".Prices, "+R+".Refresh.Collateral)", "allowance must justify the collateral", any),
 		req("refresh:collateral-max", refresh, "phi(…"+R+".Refresh.Collateral…)", opGT, "{types.Currency}", "total host collateral is bounded by the host's maximum", any),
 	}
+	// sector indices and ranges against the contract's sector count (the constructors subtract / index by them)
+	free, roots := "rhp/v4.(*RPCFreeSectorsRequest).Validate", "rhp/v4.(*RPCSectorRootsRequest).Validate"
+	sectorsRe := regexp.MustCompile(pat("…{types.V2FileContract}…"))
+	idxRe := regexp.MustCompile(`^(\{rhp/v4\.RPCFreeSectorsRequest\}\.Indices|call slices\.Clone\[.*\]\(\{rhp/v4\.RPCFreeSectorsRequest\}\.Indices\))\[\*\]$`)
+	fr := req("free:index-in-range", free, "…", opGE, "…", "EVERY freed index must be below the contract's sector count (the revision shrinks the file by the number of indices)", any)
+	fr.LFn = idxRe.MatchString
+	fr.RFn = sectorsRe.MatchString
+	tab = append(tab, fr,
+		req("roots:offset-in-range", roots, "{rhp/v4.RPCSectorRootsRequest}.Offset", opGT, "…{types.V2FileContract}…", "the requested range must start inside the contract", any),
+		req("roots:length-in-range", roots, "{rhp/v4.RPCSectorRootsRequest}.Length", opGT, "(…{types.V2FileContract}… - {rhp/v4.RPCSectorRootsRequest}.Offset)", "the requested range must end inside the contract", any))
 	runGuardTable(c, "validate-bounds", ge, tab)
 	{
 		si := &symInterp{p: c.P}
